@@ -35,8 +35,16 @@ const keyFormat = digest.KeyWithoutInstance
 
 // ---------------------------------------------------------------- digests, values, errors
 
+// emptyKey is the object of size zero (the "empty blob"): code that special-cases it must still
+// be transparent, because the recording backends do not hold it implicitly.
+const emptyKey = 0
+
 func digestOf(k int) digest.Digest {
-	return digest.MustNewDigest("c17", remoteexecution.DigestFunction_SHA256, fmt.Sprintf("%064x", k), 100)
+	size := int64(100)
+	if k == emptyKey {
+		size = 0
+	}
+	return digest.MustNewDigest("c17", remoteexecution.DigestFunction_SHA256, fmt.Sprintf("%064x", k), size)
 }
 
 func keyOf(d digest.Digest) int {
@@ -470,6 +478,7 @@ func fixedCases() [][]string {
 		{"limit-one", "#cfg limit 1", "l.call 0 1", "l.call 0 2", "l.call 1 0", "l.cancel 1", "l.base 0 err 14 3"},
 		{"queue-cached", "#cfg queue 2 5", "q.clock 3", "q.call 0 1 2", "q.call 0 2", "q.base 0 ok", "q.clock 8", "q.call 0 1", "q.clock 9", "q.call 0 1 2", "q.base 1 ok", "q.base 3 ok"},
 		{"exist-size-one", "#cfg exist 1 10", "e.set 1", "e.set 2", "e.fm 5 5 1", "e.del 1", "e.fm 15 15 1", "e.fm 16 16 1", "e.fm 17 17 2", "e.fm 18 18 1 2"},
+		{"comp-empty-blob", "#cfg comp cache dedup.local", "c.set src 0 5", "c.get 0", "c.del sink 0", "c.ffm 0 1", "c.del sink 0", "c.repl 0 1"},
 		{"comp-dedup-local", "#cfg comp cache dedup.local", "c.set src 1 11", "c.get 1", "c.get 2", "c.fault sink 14 1", "c.get 1", "c.ffm 1 2 3"},
 	}
 }
